@@ -727,6 +727,15 @@ def rule_save_tmp(ctx, R):
         R.inst(w.fn, "open-target", {"at": w.loc(i), "is_path_parameter": ok})
         if not ok:
             R.finding(w.fn, "open-target:not-parameter", "write_snapshot opens a file other than the path it was given", w.loc(i))
+        # open mode: the temp file of an earlier failed / interrupted save may still be there
+        mode = open_mode(ctx, w, i, t)
+        R.inst(w.fn, "open-mode", {"at": w.loc(i), "mode": mode})
+        if mode is None:
+            R.broken.append("open mode of the temp dump at %s not recognised" % w.loc(i))
+        elif mode.get("create_new"):
+            R.finding(w.fn, "open-mode:create_new", "the temporary dump is opened with create_new(true): the leftover of one failed or interrupted save (save() does not remove it) makes every later SAVE / BGSAVE fail with `File exists` -- a later save no longer works", w.loc(i))
+        elif mode.get("append") or not mode.get("truncate"):
+            R.finding(w.fn, "open-mode:no-truncate", "the temporary dump is opened without truncation: the leftover of an earlier, longer attempt stays behind the new snapshot's end (or the new snapshot is appended to it) and the renamed dump is not a complete, loadable snapshot", w.loc(i))
     # who else writes files in the rdb module / renames onto file_path
     for fn, fb in ctx.prog.bodies.items():
         if not fn.startswith("storage::rdb::") or fn in (w.fn,) or "::tests::" in fn:
@@ -735,6 +744,30 @@ def rule_save_tmp(ctx, R):
             if re.search(r"OpenOptions::(open|write)|File::create|std::fs::write", t["f"] or ""):
                 R.inst(fn, "other-writer")
                 R.finding(fn, "other-file-writer", "%s opens a file for writing outside write_snapshot" % fn, fb.loc(i))
+
+
+def open_mode(ctx, b, i, t):
+    """{option: bool} with which a file is opened at call site i: File::create = create+truncate;
+    OpenOptions::open = the builder calls on the value flow of its receiver with their constant
+    arguments.  None when an argument is not a constant."""
+    import flow
+    f = t["f"] or ""
+    if re.search(r"File::create(::<.*>)?$", f):
+        return {"write": True, "create": True, "truncate": True}
+    if re.search(r"File::create_new(::<.*>)?$", f):
+        return {"write": True, "create_new": True}
+    if not re.search(r"OpenOptions::open(::<.*>)?$", f):
+        return None
+    mode = {}
+    for (c, fn, bb) in flow.flow_calls(ctx, b.fn, t["a"][0]):
+        m = re.search(r"OpenOptions::(read|write|append|truncate|create|create_new)$", c or "")
+        if not m:
+            continue
+        tt = ctx.prog.bodies[fn].term(bb)
+        if len(tt["a"]) < 2 or not op_is_const(tt["a"][1]):
+            return None
+        mode[m.group(1)] = mode.get(m.group(1), False) or "true" in tt["a"][1]["c"]
+    return mode
 
 
 def rule_bgsave_flag(ctx, R):
